@@ -528,6 +528,10 @@ def build_tables(cfg, outdir):
     """assemble the architecture's .s files for `cfg` (x86-64 / AArch64 only) and return {symbol: analysis thunk}"""
     import os
     arch = bm.configs()[cfg]['arch']
+    if arch == 'armv6_m':
+        # pre-UAL Thumb sources: rewritten to unified syntax, assembled and interpreted by thumbsem
+        from . import thumbsem
+        return {name: (thumbsem.analyse_thumb, insns, order, addr) for name, (insns, order, addr) in thumbsem.build_tables(cfg, outdir).items()}
     if arch not in ('x86_64', 'aarch64'):
         return None
     os.makedirs(outdir, exist_ok=True)
@@ -632,6 +636,15 @@ def rule_asm(ctx, cfg, prog, outdir, rule='R-ASM'):
         bad = []
         for acc in R.accesses:
             if acc.base == 'sp':
+                if acc.kind == 'R' and 0 <= acc.off and acc.off + acc.width <= getattr(R, 'stack_arg_bytes', 0):
+                    continue            # an argument passed on the stack
+                if acc.kind == 'R' and acc.off in getattr(R, 'dead_caller_reads', ()):
+                    # a load of the word at the caller's stack pointer whose value reaches no output: no object of the program is
+                    # involved and nothing depends on it (a leftover, reported as a note)
+                    note = '%s: %s loads the word at the caller\'s sp%+d, which is not an argument; the value is never used' % (name, acc.text, acc.off)
+                    if note not in ctx.notes:
+                        ctx.notes.append(note)
+                    continue
                 if not (R.min_sp <= acc.off and acc.off + acc.width <= 0):
                     bad.append('%s touches the caller\'s stack (sp%+d, %d bytes)' % (acc.text, acc.off, acc.width))
                 continue
